@@ -9,6 +9,15 @@ from . import build
 SUPPORT = os.path.join(build.VERIF, 'kani', 'support.rs')
 
 
+def purge_crate_artifacts(tgt):
+    import glob as _glob
+    for pat in ('kani/*/debug/build/rusty_paseto*', 'kani/*/debug/librusty_paseto*', 'kani/debug/librusty_paseto*', 'kani/*/debug/deps/*rusty_paseto*', 'kani/*/debug/.fingerprint/rusty_paseto*', 'kani/*/debug/incremental/rusty_paseto*',
+                'kani/debug/build/rusty_paseto*', 'kani/debug/deps/*rusty_paseto*', 'kani/debug/.fingerprint/rusty_paseto*', 'kani/debug/incremental/rusty_paseto*'):
+        for f in _glob.glob(os.path.join(tgt, pat)):
+            try: shutil.rmtree(f) if os.path.isdir(f) else os.unlink(f)
+            except OSError: pass
+
+
 def run_kani(harness_rs, module_file, harnesses, timeout=600, unwind=None, extra_mod_decl='#[cfg(kani)]\nmod verif_harness;\n', support=False):
     """returns list of dicts {harness, status: SUCCESSFUL|FAILED|ERROR|TIMEOUT, time_s, failed_checks:[...], log_tail}"""
     scratch = tempfile.mkdtemp(prefix='vf-kani-')
@@ -40,6 +49,10 @@ def run_kani(harness_rs, module_file, harnesses, timeout=600, unwind=None, extra
                   ['cargo', 'kani', '-Z', 'stubbing', '--harness', h, '--exact', '--output-format', 'terse']
             try:
                 with build.Lock('kani'):
+                    # the shared target directory keeps the dependencies compiled; everything that belongs to the crate itself is removed first: cargo-kani collects the
+                    # harness metadata it finds there, and artefacts left by ANOTHER tree (an earlier check of a changed checkout) were picked up in its place
+                    # (seen twice: a benign tree "failed", a changed tree "passed").  Under the lock, so no other check builds at the same time.
+                    purge_crate_artifacts(env['CARGO_TARGET_DIR'])
                     p = subprocess.run(cmd, cwd=dst, env=env, capture_output=True, text=True, timeout=timeout)
                 txt = p.stdout + '\n' + p.stderr
                 if 'VERIFICATION:- SUCCESSFUL' in txt: status = 'SUCCESSFUL'
@@ -47,6 +60,18 @@ def run_kani(harness_rs, module_file, harnesses, timeout=600, unwind=None, extra
                 else: status = 'ERROR'
             except subprocess.TimeoutExpired as e:
                 txt = (e.stdout or b'').decode(errors='replace') if isinstance(e.stdout, bytes) else (e.stdout or ''); status = 'TIMEOUT'
+            if status == 'FAILED' and not os.environ.get('VF_KANI_NO_RECHECK'):
+                # a failure is re-examined in a private target directory before it is believed: the shared one is used by every check and every scratch tree,
+                # and one failure that did not come back on an unchanged benign tree was seen under heavy parallel load
+                priv = os.path.join(build.CACHE, 'tgt-kani-recheck-%d' % os.getpid())
+                try:
+                    p2 = subprocess.run(cmd, cwd=dst, env=dict(env, CARGO_TARGET_DIR=priv), capture_output=True, text=True, timeout=timeout + 300)
+                    txt2 = p2.stdout + '\n' + p2.stderr
+                    if 'VERIFICATION:- SUCCESSFUL' in txt2: status = 'ERROR'; txt = 'first run FAILED, the re-run in a private target directory was SUCCESSFUL: inconsistent, not used\n' + txt[-600:]
+                    elif 'VERIFICATION:- FAILED' in txt2: txt = txt2
+                    else: status = 'ERROR'; txt = 're-run of a failed harness did not finish\n' + txt2[-600:]
+                except subprocess.TimeoutExpired: status = 'TIMEOUT'
+                finally: shutil.rmtree(priv, ignore_errors=True)
             failed = re.findall(r'Failed Checks: (.*)', txt)
             out.append({'harness': h, 'status': status, 'time_s': round(time.time() - t0, 1), 'failed_checks': failed[:10], 'log_tail': ('\n'.join(l for l in txt.split('\n') if l.startswith('error') or '-->' in l)[:1500] + txt[-1500:])})
             if status == 'SUCCESSFUL':
